@@ -57,7 +57,7 @@ CHECKS = {
    note="schedules are exercised by stress only: the harness picks which program a thread runs next, not instruction interleavings (the crate has no synchronisation to interleave on); a regression introducing process-wide state is what this detects"),
  "C17": dict(cat="fault_enumeration", ref="5.17", technique="model-based stateful testing of sessions against the implementation's own single-program semantics; exhaustive enumeration of short sessions; fault injection at every instruction boundary of multi-statement lines",
    text="all sessions of <=3 lines over a 22-line alphabet and generated sessions of up to 13 lines (incl. parse / compile / run-time failing lines and lines cut after k instructions) on one retained compiler+VM; every line must behave like the last line of one program made of the effective earlier lines; a cut sweep enumerates every k for three lines and checks that the completed prefix is a prefix and grows monotonically; relation: after a failing line every later line shows what it shows after a successful line with the same completed assignments; the prompt program itself (src/bin/nederlang.rs) is fed the lines and must write what the library answers",
-   note="oracle is nederlang::eval of the concatenation (the property's own definition); U1 for lines ending in declarations; results of lines are not released (as the prompt)"),
+   note="oracle is nederlang::eval of the concatenation (the property's own definition); U1 for lines ending in declarations; results of lines are not released (as the prompt). One open known finding, KF-C17-DECLNAME (a declaration whose initialiser fails leaves its name declared): printed as KNOWN-FINDING, matched exactly"),
 }
 hooks_commits = subprocess.run(["git","-C","/repo","log","--format=%h %s"],capture_output=True,text=True).stdout.splitlines()
 hook_ids = [l.split()[0] for l in hooks_commits if "verif hook" in l]
